@@ -1541,18 +1541,25 @@ Proof. intros key. unfold ph, mtext. cbn [app]. now rewrite app_nil_r. Qed.
 Lemma format_cfg_false : forall v, format_cfg false v = format_any v.
 Proof. intros v. destruct v; reflexivity. Qed.
 
-(* the unrepaired callback is Placeholder.resolve *)
-Lemma resolve_fx_false : forall cfg exp, resolve_fx false cfg exp = resolve cfg exp.
-Proof.
-  intros cfg exp. unfold resolve_fx, resolve. destruct (split_first b_colon exp) as [key dflt].
-  match goal with |- rbind ?x _ = rbind ?x _ => destruct x as [v'| |]; try reflexivity end.
-  cbn [rbind]. destruct v'; reflexivity.
-Qed.
+(* [resolve_fx] is Placeholder.resolve (Model/Values.v keeps the name as an abbreviation); its unrepaired
+   variant is the callback that splices FormatAny's text for every value *)
+Lemma resolve_fx_false : forall cfg exp,
+  resolve_fx false cfg exp =
+  (let (key, dflt) := split_first b_colon exp in
+   let v := cfg key in
+   rbind (if absent v then
+            match dflt with
+            | Some (c :: d) => parse_any (c :: d)
+            | _ => Ok v
+            end
+          else Ok v)
+         (fun v' => match v' with VNull => Ok [] | _ => format_any v' end)).
+Proof. exact resolve_unrepaired. Qed.
 
 Lemma resolve_fx_key : forall fx cfg key, byte_index b_colon key = None -> cfg key <> VNull ->
-  resolve_fx fx cfg key = format_cfg fx (cfg key).
+  resolve fx cfg key = format_cfg fx (cfg key).
 Proof.
-  intros fx cfg key Hc Hnn. unfold resolve_fx. rewrite (split_first_none _ _ Hc).
+  intros fx cfg key Hc Hnn. unfold resolve. rewrite (split_first_none _ _ Hc).
   assert (H : (if absent (cfg key) then Ok (cfg key) else Ok (cfg key)) = @Ok cval (cfg key)) by (destruct (absent (cfg key)); reflexivity).
   rewrite H. cbn [rbind]. destruct (cfg key); try reflexivity. congruence.
 Qed.
@@ -1560,14 +1567,14 @@ Qed.
 Lemma quote_stage_key : forall fx cfg key text, key_ok key = true -> cfg key <> VNull ->
   format_cfg fx (cfg key) = Ok text -> inert text = true ->
   find_first b_dollar (ph key) <> None /\
-  replace_all_content b_dollar (resolve_fx fx cfg) (Some repo_budget) O (ph key) = Done text.
+  replace_all_content b_dollar (resolve fx cfg) (Some repo_budget) O (ph key) = Done text.
 Proof.
   intros fx cfg key text Hk Hnn Hf Hi. unfold key_ok in Hk. apply andb_true_iff in Hk. destruct Hk as [Hb Hc].
   destruct (byte_index b_colon key) eqn:Ec; [discriminate|].
   split.
   - rewrite ph_mtext, (find_first_at b_dollar eq_refl eq_refl [] key [] eq_refl Hb). discriminate.
   - unfold replace_all_content. change repo_budget with (S 1023).
-    rewrite ph_mtext, (rac_step_at b_dollar eq_refl eq_refl (resolve_fx fx cfg) Exhausted 1023 [] key [] eq_refl Hb).
+    rewrite ph_mtext, (rac_step_at b_dollar eq_refl eq_refl (resolve fx cfg) Exhausted 1023 [] key [] eq_refl Hb).
     rewrite (resolve_fx_key fx cfg key Ec Hnn), Hf. cbn [app]. rewrite app_nil_r, rac_loop_eq.
     destruct (inert_split text Hi) as [I1 _]. now rewrite (find_first_absent _ _ I1).
 Qed.
